@@ -199,6 +199,9 @@ func verifWaitIdle() int {
 	return -1
 }
 func verifYield()         { runtime.Gosched() }
+func verifOSCalls() int                  { return -1 }
+func verifOSCallArg(i, k int) string     { return "" }
+func verifOSCallName(i int) string       { return "" }
 func verifSymbolic() bool { return false }
 
 func verifRunEntry(entry string) {
@@ -489,5 +492,8 @@ func verifObserveStr(label, v string)        {}
 func verifObserveBool(label string, v bool)  {}
 func verifWaitIdle() int                     { return 0 }
 func verifYield()                            {}
+func verifOSCalls() int                      { return 0 }
+func verifOSCallArg(i, k int) string         { return "" }
+func verifOSCallName(i int) string           { return "" }
 func verifSymbolic() bool                    { return true }
 `
